@@ -1,14 +1,15 @@
 #!/bin/sh
 # usage: overlaytest.sh <test file with '// path: rel/path_test.go' first line> [go test args...]
 # Runs an in-package test against /repo without writing into /repo (go test -overlay).
+REPO=${REPO:-/repo}
 export GOFLAGS=-mod=mod GOPROXY=off GOSUMDB=off GOTOOLCHAIN=local
 f="$1"; shift
 rel=$(head -1 "$f" | sed -n 's#^// *path: *##p')
 [ -z "$rel" ] && { echo "no path comment"; exit 2; }
 mkdir -p /verif/.work/overlay
 ov=/verif/.work/overlay/ov_$$.json
-printf '{"Replace":{"/repo/%s":"%s"}}' "$rel" "$f" > $ov
-cd /repo && go test -overlay $ov -vet=off -count=1 -timeout 60s "$@" ./$(dirname $rel)/
+printf '{"Replace":{"%s/%s":"%s"}}' "$REPO" "$rel" "$f" > $ov
+cd $REPO && go test -overlay $ov -vet=off -count=1 -timeout 60s "$@" ./$(dirname $rel)/
 rc=$?
 rm -f $ov
 exit $rc
